@@ -5,6 +5,6 @@ set -e
 cd "$(dirname "$0")"
 export GOFLAGS=-mod=mod GOPROXY=off GOSUMDB=off GOTOOLCHAIN=local
 mkdir -p .build evidence
-(cd harness && go build -tags verif -o ../.build/vh .)
+(cd harness && go build -o ../.build/vh .)
 java -cp /opt/veriftools/tla/tla2tools.jar tlc2.TLC -h >/dev/null 2>&1 || true
 echo "setup ok"
